@@ -72,7 +72,9 @@ pub fn evaluate(rule: Rule, times: &[i64], values: &[f64], x: i64) -> Local {
         }
         Rule::LogLinear => {
             let w = (xf - x1) / (x2 - x1);
-            cond = 1.0 + y1.ln().abs() + (y2.ln() - y1.ln()).abs() * w.abs();
+            // each logarithm carries its own rounding error, and the difference of the two is scaled
+            // by |w| (large when extrapolating far beyond a short interval)
+            cond = 1.0 + y1.ln().abs() * (1.0 + w.abs()) + y2.ln().abs() * w.abs();
             power_form(y1, y2, 1.0 - w, w)
         }
         Rule::LinearZeroRate => {
